@@ -181,6 +181,7 @@ def explore(ctx):
                     for q in allp[:3]:
                         shear_cases.append({"spec": sp, "strain": s, "keys": [list(q), list(p)]})
     ctx.run(MOD, "run_shear", shear_cases, part="shear-identity")
+    ctx.run_under(MOD, "run_shear", shear_cases[:2] + shear_cases[-2:], ("-O",))
     import itertools
     orders = [list(p) for L in (1, 2, 3) for p in itertools.product(range(4), repeat=L)]
     ctx.run(MOD, "run_reuse", [{"order": o, "mode": m} for o in orders for m in ("same-object", "released")], part="object-histories",
